@@ -84,6 +84,15 @@ fn ber_exp(x: f64, ccs: f64, random_bytes: [u8; 7]) -> bool {
             break;
         }
     }
+    #[cfg(feature = "verif-hooks")]
+    if crate::verif::sampler_recording() {
+        crate::verif::emit(crate::verif::Event::BerExp {
+            x,
+            ccs,
+            random_bytes,
+            result: w < 0,
+        });
+    }
     w < 0
 }
 
@@ -105,10 +114,37 @@ pub(crate) fn sampler_z(mu: f64, sigma: f64, sigma_min: f64, rng: &mut dyn RngCo
         let zf_min_r = (z as f64) - r;
         //    x = ((z-r)^2)/(2*sigma^2) - ((z-b)^2)/(2*sigma0^2)
         let x = zf_min_r * zf_min_r * dss - (z0 * z0) as f64 * INV_2SIGMA_MAX_SQ;
+        #[cfg(feature = "verif-hooks")]
+        if crate::verif::sampler_recording() {
+            crate::verif::emit(crate::verif::Event::SamplerIter {
+                mu,
+                sigma,
+                sigma_min,
+                z0,
+                b,
+                x,
+                ccs,
+            });
+        }
         if ber_exp(x, ccs, rng.gen()) {
             return z + (s as i16);
         }
     }
+}
+
+#[cfg(feature = "verif-hooks")]
+pub(crate) fn verif_base_sampler(bytes: [u8; 9]) -> i16 {
+    base_sampler(bytes)
+}
+
+#[cfg(feature = "verif-hooks")]
+pub(crate) fn verif_approx_exp(x: f64, ccs: f64) -> u64 {
+    approx_exp(x, ccs)
+}
+
+#[cfg(feature = "verif-hooks")]
+pub(crate) fn verif_ber_exp(x: f64, ccs: f64, random_bytes: [u8; 7]) -> bool {
+    ber_exp(x, ccs, random_bytes)
 }
 
 #[cfg(test)]
